@@ -229,6 +229,8 @@ func dmBlockEnd(lines []string, i int) int {
 	return -1
 }
 
+var dmReVarDecl = regexp.MustCompile(`^\s*(?:let|var) (\w+)\b`)
+
 type dmCut struct {
 	from, to int
 	unwrap   bool
@@ -366,6 +368,31 @@ func dmShrinkScenario(sc *dmScenario, vm bool, want dmVerdict, failing int, budg
 				}
 				ic.size = len(ic.ids)
 				cands = append(cands, ic)
+			}
+			// all (single-line) statements mentioning one declared variable: removes creation / use /
+			// destruction of a resource in one step
+			for _, l := range texts {
+				m := dmReVarDecl.FindStringSubmatch(l)
+				if m == nil {
+					continue
+				}
+				re := regexp.MustCompile(`\b` + m[1] + `\b`)
+				ic := idCut{ids: map[int]bool{}, indent: len(l) - len(strings.TrimLeft(l, " "))}
+				ok := true
+				for k, t := range texts {
+					if re.MatchString(t) {
+						tt := strings.TrimSpace(t)
+						if strings.HasSuffix(tt, "{") || strings.HasPrefix(tt, "}") || strings.HasPrefix(tt, "return") {
+							ok = false
+							break
+						}
+						ic.ids[cl[k].id] = true
+					}
+				}
+				ic.size = len(ic.ids)
+				if ok && ic.size > 1 {
+					cands = append(cands, ic)
+				}
 			}
 			sort.SliceStable(cands, func(a, b int) bool {
 				if cands[a].indent != cands[b].indent {
